@@ -225,8 +225,12 @@ def build_model_driver():
         for f in os.listdir(os.path.join(VERIF, "ocaml")):
             if f.endswith(".ml"):
                 shutil.copy(os.path.join(VERIF, "ocaml", f), oc)
-        sh("ocamlfind ocamlopt -O3 -w -a -package unix -linkpkg model.mli model.ml conv.ml extra.ml driver.ml -o rvm 2>&1 | grep -v 'options -O3 is only' ; test -x rvm",
-           cwd=oc)
+        if os.path.exists(rvm):
+            os.remove(rvm)
+        rc, out, _ = sh("ocamlfind ocamlopt -O3 -w -a -package unix -linkpkg model.mli model.ml conv.ml extra.ml driver.ml -o rvm 2>&1",
+                        cwd=oc, check=False)
+        if rc != 0 or not os.path.exists(rvm):
+            raise CheckError("OCaml driver does not build:\n" + out[-3000:])
         open(stamp, "w").write(hsh)
         return rvm
 
@@ -300,3 +304,33 @@ def write_json(path, obj):
         json.dump(obj, f, indent=1, sort_keys=False)
         f.write("\n")
     os.replace(tmp, path)
+
+
+def run_groups(binary, groups, workdir, tag, timeout=600):
+    """groups: list of (env dict or None, lines). One process per group (its own environment), run on a
+    thread pool. Returns list of output-line lists, in order."""
+    from concurrent.futures import ThreadPoolExecutor
+    os.makedirs(workdir, exist_ok=True)
+
+    def one(i_g):
+        i, (env, lines) = i_g
+        inp = os.path.join(workdir, "%s.g%d.in" % (tag, i))
+        outp = os.path.join(workdir, "%s.g%d.out" % (tag, i))
+        with open(inp, "w") as f:
+            f.write("\n".join(lines) + ("\n" if lines else ""))
+        e = dict(os.environ)
+        if env:
+            for k, v in env.items():
+                if v is None:
+                    e.pop(k, None)
+                else:
+                    e[k] = v
+        p = subprocess.run([binary, inp, outp], stdout=subprocess.DEVNULL, stderr=subprocess.PIPE, env=e, timeout=timeout)
+        out = open(outp, encoding="utf-8", errors="replace").read().split("\n") if os.path.exists(outp) else []
+        if out and out[-1] == "":
+            out.pop()
+        if p.returncode != 0 or len(out) != len(lines):
+            out = out + ["CRASH rc=%s" % p.returncode] * (len(lines) - len(out))
+        return out
+    with ThreadPoolExecutor(max_workers=NCPU) as ex:
+        return list(ex.map(one, enumerate(groups)))
